@@ -3,6 +3,7 @@ package main
 // Assumed contracts on dependencies that need more than a one-line model.
 
 import (
+	"fmt"
 	"go/types"
 
 	"golang.org/x/tools/go/ssa"
@@ -268,10 +269,14 @@ func (ex *Exec) jPath(st *State, v *Term, keys Value) *Term {
 func jsonFacts(all []*Term) []*Term {
 	var ax []*Term
 	for _, t := range all {
-		if t.open || t.Op != "app" {
+		if t.open || (t.Op != "app" && t.Op != "select") {
 			continue
 		}
-		switch t.Name {
+		name := t.Name
+		if t.Op == "select" {
+			name = "select"
+		}
+		switch name {
 		case "jget":
 			// member lookup is nil-safe and only objects have members
 			ax = append(ax, Implies(Eq(t.Args[0], jvNil), Eq(t, jvNil)),
@@ -280,6 +285,11 @@ func jsonFacts(all []*Term) []*Term {
 			ax = append(ax, Implies(Or(Eq(t.Args[0], jvNil), Neq(jType(t.Args[0]), IntLit(jTypeString))), Eq(t, BytesNil)))
 		case "jtype":
 			ax = append(ax, Ge(t, IntLit(0)), Le(t, IntLit(6)))
+		case "select":
+			// the elements of a parsed array are values, never nil
+			if a := t.Args[0]; a.Op == "app" && a.Name == "jarr" {
+				ax = append(ax, Implies(And(Le(IntLit(0), t.Args[1]), Lt(t.Args[1], App("jlen", SInt, a.Args[0]))), Neq(t, jvNil)))
+			}
 		case "jlen":
 			ax = append(ax, Ge(t, IntLit(0)), Implies(Or(Eq(t.Args[0], jvNil), Neq(jType(t.Args[0]), IntLit(jTypeArray))), Eq(t, IntLit(0))))
 		}
@@ -346,6 +356,57 @@ func init() {
 		isT, isF := Eq(jType(v), IntLit(jTypeTrue)), Eq(jType(v), IntLit(jTypeFalse))
 		e := freshErr(ex, "jbool")
 		return &TupleVal{V: []Value{isT, Ite(Or(isT, isF), ErrNil, e)}}
+	}
+	externals[pre+"Object"] = func(ex *Exec, st *State, a []Value, x *ssa.Call) Value {
+		v := a[0].(*Term)
+		ex.panicIf(st, Eq(v, jvNil), "nil-deref(*fastjson.Value).Object", x.Pos())
+		return ex.opaqueCall(st, "ext:(*fastjson.Value).Object", nil, a, x.Type())
+	}
+	// Visit calls f on every member: the callback is run once on an arbitrary key and a non-nil value, from an
+	// arbitrary state of the variables it captures, which are arbitrary again afterwards (any number of calls)
+	externals["(*fastjson.Object).Visit"] = func(ex *Exec, st *State, a []Value, x *ssa.Call) Value {
+		fv, ok := a[1].(*FuncVal)
+		if !ok {
+			panic(unsupported("Visit with a non-function"))
+		}
+		for _, al := range fv.Alts {
+			if al.Fn == nil {
+				continue
+			}
+			run := func(from *State) *State {
+				ex.objSeq++
+				key := Var(fmt.Sprintf("visit.key!%d", ex.objSeq), SBytes)
+				val := Var(fmt.Sprintf("visit.val!%d", ex.objSeq), jvSort)
+				ex.assume(Neq(val, jvNil))
+				sub := &State{pc: And(from.pc, al.C), env: from.env, heap: from.heap}
+				ex.callStatic(sub, al.Fn, []Value{key, val}, al.Bind, nil)
+				return sub
+			}
+			// first call: from the current state; it also tells which existing memory the callback writes
+			nW, seq := len(ex.writes), ex.objSeq
+			first := run(st.clone())
+			_ = first
+			seen := map[*Obj]bool{}
+			var written []*Obj
+			for _, wr := range ex.writes[nW:] {
+				if (wr.O.id > seq && wr.O.fresh) || seen[wr.O] {
+					continue
+				}
+				seen[wr.O] = true
+				written = append(written, wr.O)
+			}
+			havoc := func() {
+				for _, o := range written {
+					st.heap[o] = ex.havocContent(o, "visit")
+				}
+			}
+			// any later call: from an arbitrary content of that memory; arbitrary again afterwards
+			havoc()
+			sub := run(st)
+			st.heap = sub.heap
+			havoc()
+		}
+		return nil
 	}
 	externals["(*fastjson.Parser).ParseBytes"] = func(ex *Exec, st *State, a []Value, x *ssa.Call) Value {
 		data := a[1].(*Term)
